@@ -117,8 +117,13 @@ fn one<S: Inner + 'static>(ctx: &mut Ctx, i: usize, inner: S) {
                 Some(Err(e)) => { emit(ctx, "error:debug", &secrets, format!("{:?}", e).as_bytes()); }
                 None => { emit(ctx, "panic", &secrets, b"panic"); }
             }
-            // --- the stored passkeys as Debug renders them
+            // --- the stored passkeys as Debug renders them, and what the public-key helper makes of a stored key
             for p in all(&client) {
+                match guarded(|| passkey_authenticator::public_key_der_from_cose_key(&p.key)) {
+                    Some(Ok(der)) => emit(ctx, "public_key_der_from_cose_key:stored", &secrets, &der),
+                    Some(Err(e)) => emit(ctx, "error:status", &secrets, format!("{:?}", e).as_bytes()),
+                    None => emit(ctx, "panic", &secrets, b"panic"),
+                }
                 emit(ctx, "passkey:debug", &secrets, format!("{:?}", p).as_bytes());
                 emit(ctx, "passkey:debug-pretty", &secrets, format!("{:#?}", p).as_bytes());
             }
@@ -149,7 +154,10 @@ fn one<S: Inner + 'static>(ctx: &mut Ctx, i: usize, inner: S) {
                 user: webauthn::PublicKeyCredentialUserEntity { id: m.user.clone().into(), display_name: "d".into(), name: "n".into() },
                 pub_key_cred_params: vec![PublicKeyCredentialParameters { ty: PublicKeyCredentialType::PublicKey, alg: coset::iana::Algorithm::ES256 }],
                 exclude_list: None,
-                extensions: Some(make_credential::ExtensionInputs { hmac_secret: Some(true), hmac_secret_mc: None, prf: Some(AuthenticatorPrfInputs { eval: Some(AuthenticatorPrfValues { first: [7u8; 32], second: Some([8u8; 32]) }), eval_by_credential: None }) }),
+                // every extension input the request type has, the ones the authenticator ignores included
+                extensions: Some(make_credential::ExtensionInputs { hmac_secret: Some(true),
+                    hmac_secret_mc: if step % 2 == 0 { Some(passkey_types::ctap2::extensions::HmacGetSecretInput { key_agreement: ciborium::value::Value::Null, salt_enc: ctx.rng.bytes(if step % 4 == 0 { 32 } else { 64 }).into(), salt_auth: vec![0u8; 16].into(), pin_uv_auth_protocol: None }) } else { None },
+                    prf: Some(AuthenticatorPrfInputs { eval: Some(AuthenticatorPrfValues { first: [7u8; 32], second: Some([8u8; 32]) }), eval_by_credential: None }) }),
                 options: make_credential::Options { rk: step % 3 != 1, up: true, uv: step % 2 == 0 }, pin_auth: None, pin_protocol: None };
             let res = guarded(|| crate::env::block_on(client.authenticator_mut().make_credential(req)));
             let mut secrets = secrets_of(&all(&client));
@@ -168,7 +176,9 @@ fn one<S: Inner + 'static>(ctx: &mut Ctx, i: usize, inner: S) {
             if let Some(id) = ctap_id {
                 let req = get_assertion::Request { rp_id: "example.com".into(), client_data_hash: ctx.rng.bytes(32).into(),
                     allow_list: Some(vec![PublicKeyCredentialDescriptor { ty: PublicKeyCredentialType::PublicKey, id: id.into(), transports: None }]),
-                    extensions: Some(get_assertion::ExtensionInputs { hmac_secret: None, prf: Some(AuthenticatorPrfInputs { eval: Some(AuthenticatorPrfValues { first: [9u8; 32], second: None }), eval_by_credential: None }) }),
+                    extensions: Some(get_assertion::ExtensionInputs {
+                        hmac_secret: if step % 2 == 1 { Some(passkey_types::ctap2::extensions::HmacGetSecretInput { key_agreement: ciborium::value::Value::Null, salt_enc: ctx.rng.bytes(32).into(), salt_auth: vec![0u8; 16].into(), pin_uv_auth_protocol: None }) } else { None },
+                        prf: Some(AuthenticatorPrfInputs { eval: Some(AuthenticatorPrfValues { first: [9u8; 32], second: None }), eval_by_credential: None }) }),
                     options: make_credential::Options { rk: false, up: true, uv: step % 2 == 1 }, pin_auth: None, pin_protocol: None };
                 let res = guarded(|| crate::env::block_on(client.authenticator_mut().get_assertion(req)));
                 let secrets = secrets_of(&all(&client));
